@@ -45,7 +45,7 @@ META = {
 RT = 1e-5
 HREL = 1e-3
 FLOOR = 1e-9
-PARAXIAL = np.array([0.05, 0.05, 0.05, 0.05, 0.02, 0.1])   # largest |x|, |px|, |y|, |py|, |tau|, |p| of a beam-like beam
+PARAXIAL = np.array([0.05, 1.5, 0.05, 1.5, 0.02, 0.1])   # largest |x|, |px|, |y|, |py|, |tau|, |p| of a beam-like beam
 EPS = 2.0 ** -52
 COORD = ["x", "px", "y", "py", "tau", "p"]
 PLANE = ["T", "T", "T", "T", "L", "L"]
